@@ -82,6 +82,17 @@ CHECKS["C20"] = dict(
     note="Each atom of a generated query has its own unconstrained symbolic constant. Outside: string predicates on names, raising "
          "predicates nested inside boolean combinations, Entry.root's documented None for parentless results.")
 
+CHECKS["C19"] = dict(
+    text="Bounded symbolic execution of the real combinator classes on symbolic input strings (<=3 chars, any code point except "
+         "newline): every term of depth<=1 (467 terms over Char/InSet/String/Literal/EOF/Sequence/Choice/Many(lower 0-2)/Until/Opt/"
+         "KeepLeft/KeepRight/FollowedBy/NotFollowedBy/Map/Lift) and every unary combinator over every binary depth-1 term (thorough: "
+         "also binary over (depth-1, leaf), inputs <=4) must accept exactly the inputs and return exactly the values of a "
+         "reference PEG interpreter run under the same path condition; the tag language on every expression of depth<=2 "
+         "(minimal and full parentheses, symbolic whitespace) against boolean evaluation on a symbolic tag-membership vector; the "
+         "example JSON grammar on rendered values with symbolic digits/characters.",
+    note="Stub: {!r} of a symbolic character inside the error text. Outside: indentation/tag-stack combinators, regex and quoted "
+         "tag predicates, JSON floats with symbolic digits, escapes/unicode/scientific notation.")
+
 NOT_APPLICABLE = {
 }
 
